@@ -34,7 +34,7 @@ def main():
     ap_ = sh(f"git -C {REPO} apply --3way {patch}")
     if ap_.returncode != 0:
         print("PATCH DOES NOT APPLY:", ap_.stdout)
-        sh(f"git -C {REPO} checkout -- . ; git -C {REPO} reset -q")
+        sh(f"git -C {REPO} reset -q --hard HEAD")
         return 3
     try:
         if a.demo and os.path.exists(demo):
@@ -50,7 +50,7 @@ def main():
             lines = [l for l in r.stdout.splitlines() if l.startswith(("VIOLATION", "  failure", "HARNESS", "KNOWN"))]
             res["checks"][c] = {"rc": r.returncode, "wall_s": round(time.time() - t, 1), "lines": lines[:8]}
     finally:
-        sh(f"git -C {REPO} reset -q; git -C {REPO} checkout -- .")
+        sh(f"git -C {REPO} reset -q --hard HEAD")
         assert sh(f"git -C {REPO} status --porcelain").stdout.strip() == ""
     print(json.dumps(res, indent=1))
     return 0
